@@ -12,7 +12,10 @@ def describe(lp, names=True):
     if len(vd) != 1:
         return None
     v = vd[0]
-    vk = key(v_ref(v), names) if False else (v.get("n") if names else "v%d" % v.get("d"))
+    if isinstance(names, dict):
+        vk = names.get(v.get("d")) or "v%d" % v.get("d")
+    else:
+        vk = v.get("n") if names else "v%d" % v.get("d")
     c = cond.strip()
     upper = None
     if c.k == "BinaryOperator" and len(c.c) == 2:
@@ -48,3 +51,15 @@ def describe(lp, names=True):
 
 def v_ref(v):
     return v
+
+
+def name_induction_variables(fn, roles):
+    """give every counting-loop variable the role name $for<init..upper;step> (outer loops first), so that loops of two functions
+    can be compared without reference to the identifiers chosen for the loop variables"""
+    for lp in fn.walk():
+        if lp.k != "ForStmt":
+            continue
+        d = describe(lp, names=roles)
+        if d:
+            roles[d["d"]] = "$for<%s..%s;%s>" % (d["init"], d["upper"], d["step"])
+    return roles
